@@ -76,7 +76,8 @@ def handle (args : List Json) : Json :=
         ("tags", jarr (st.tags.map fun t => jarr [jstr t.1, jstr t.2.1, jnat t.2.2])),
         ("hyp", Json.bool (decide ((tmpl :: partNamesNodes ns).Nodup) && noDeadIncNodes ns false)),
         ("sound", Json.bool (rs.all (evOk st))),
-        ("first", Json.bool (rs.all (evOk1 st)))]
+        ("first", Json.bool (rs.all (evOk1 st))),
+        ("hyp2", Json.bool (hyp2b ns tmpl))]
     | _, _, _ => jerr "bad-tree"
   | _ => jerr "bad-args"
 
